@@ -89,23 +89,23 @@ Fixpoint bounded_retry (c : pcfg) (fuel lfuel : nat) : prog (outcome (option Z))
                end)))
   end.
 
-Definition remove_nth (n : nat) (l : list Z) : list Z := firstn n l ++ skipn (S n) l.
+Definition remove_nth (n : nat) (l : list Z) : list Z := (firstn n l ++ skipn (S n) l)%list.
 
 Definition allocate (c : pcfg) (fuel : nat) (t idx : nat) (held : list Z) : prog pres :=
   Emit [EvCli "inv_alloc" []]
     (bind (dequeue (pq c) fuel) (fun r =>
        match r with
-       | Done (Some p) => Emit [EvCli "ret_alloc" [p]] (Ret (true, held ++ [p]))
+       | Done (Some p) => Emit [EvCli "ret_alloc" [p]] (Ret (true, (held ++ [p])%list))
        | Done None =>
            if (pkind c =? 2)%Z then
              bind (bounded_retry c fuel fuel) (fun r2 =>
                match r2 with
-               | Done (Some p) => Emit [EvCli "ret_alloc" [p]] (Ret (true, held ++ [p]))
+               | Done (Some p) => Emit [EvCli "ret_alloc" [p]] (Ret (true, (held ++ [p])%list))
                | Done None => Emit [EvCli "ret_alloc" [0]] (Ret (true, held))        (* std::bad_alloc *)
                | OutOfFuel => stop "outoffuel" held
                | UB => stop "ub" held
                end)
-           else Emit [EvCli "ret_alloc" [hid c t idx]] (Ret (true, held ++ [hid c t idx]))
+           else Emit [EvCli "ret_alloc" [hid c t idx]] (Ret (true, (held ++ [hid c t idx])%list))
        | OutOfFuel => stop "outoffuel" held
        | UB => stop "ub" held
        end)).
